@@ -82,6 +82,16 @@ Definition check_hist (c : hcase) : nat :=
 
 Definition results (cs : list hcase) : list nat := map check_hist cs.
 
+(** Does every build of the history stay in the scope of the theorems
+    ([hist_in_scope])? 1 = yes. *)
+Definition ops_of (steps : list hstep) : list op :=
+  map (fun s => match s with HOp o => o | HBuild ts _ => OBuild ts end) steps.
+
+Definition in_scope (c : hcase) : nat :=
+  if hist_in_scopeb (ops_of (h_steps c)) (empty_world (h_rules c) (h_src c)) then 1 else 0.
+
+Definition scopes (cs : list hcase) : list nat := map in_scope cs.
+
 (** What the model did at each build of a history: (executed, hits) counts,
     for the coverage record. *)
 Fixpoint model_trace (w : world) (steps : list hstep) : list (nat * nat) :=
